@@ -290,10 +290,9 @@ def _classify_script(items, col, parser='parse_bytes', strict=False):
     # (a) whole-length heuristics: same items, different total length / first byte
     ok, _, _ = _script_ok(_safe(items), parser, strict)
     if ok:
-        if parser == 'parse':
-            if _triggers(len(raw) // 2, raw[0]):
-                return K_PARSE_HALF
-        elif _triggers(len(raw), raw[0]):
+        if parser == 'parse' and _triggers(len(raw) // 2, raw[0]):
+            return K_PARSE_HALF
+        if _triggers(len(raw), raw[0]):
             return K_WHOLELEN
     # (b) data items typed 'other' re-parsed as scripts: replace them by 20-byte items
     neutral = [(b'\x11' * 20 if (isinstance(i, bytes) and not _is_neutral(i)) else i) for i in items]
